@@ -109,7 +109,7 @@ def required(tier):
         "bare_zero_or_nan_addsub_accepted": 400 if big else 40,
         "operand_snapshots": 200000 if big else 20000,
         "container_invariant_evals": 100000,
-        "op_form_outcome": 120,          # distinct (operator, form, outcome class)
+        "op_form_outcome": 90,          # distinct (operator, form, outcome class)
         "op_kinds": 300,                 # distinct (operator, left kind, right kind)
         "anchored_lines": 150,
     }
@@ -124,22 +124,22 @@ def shards(tier, seed):
         out.append(kw)
 
     n = 8000 if big else 480
-    for i in range(6 if big else 4):
-        add(f"exact{i}", mode="fraction", auto_reduce=False, trees=n, depth=4 if big and i % 2 else 3)
-    for i in range(3 if big else 2):
+    for i in range(4):
+        d4 = big and i % 2 == 1
+        add(f"exact{i}", mode="fraction", auto_reduce=False, trees=int(n * 0.6) if d4 else n, depth=4 if d4 else 3)
+    for i in range(2):
         add(f"exact-reduce{i}", mode="fraction", auto_reduce=True, trees=n, depth=3)
     add("matrix-exact", mode="fraction", auto_reduce=False, matrix=6 if big else 1, trees=0, depth=1)
     add("matrix-exact-reduce", mode="fraction", auto_reduce=True, matrix=6 if big else 1, trees=0, depth=1)
     add("matrix-float", mode="float", auto_reduce=False, matrix=6 if big else 1, trees=0, depth=1)
     add("matrix-float-reduce", mode="float", auto_reduce=True, matrix=6 if big else 1, trees=0, depth=1)
-    for i in range(2 if big else 1):
-        add(f"generated{i}", mode="fraction", auto_reduce=bool(i % 2), generated=True,
-            registries=60 if big else 5, trees=40, depth=3)
-    for i in range(3 if big else 2):
-        add(f"float{i}", mode="float", auto_reduce=i == 1, trees=int(n * 1.6), depth=4 if big and i == 2 else 3)
-    for i in range(2 if big else 1):
-        add(f"decimal{i}", mode="decimal", auto_reduce=False, trees=n, depth=3)
-    for i in range(4 if big else 3):
+    add("matrix-ndarray", mode="ndarray", auto_reduce=False, matrix=6 if big else 1, trees=0, depth=1)
+    add("generated0", mode="fraction", auto_reduce=False, generated=True,
+        registries=150 if big else 5, trees=40, depth=3)
+    for i in range(2):
+        add(f"float{i}", mode="float", auto_reduce=i == 1, trees=int(n * 1.5), depth=4 if big and i == 0 else 3)
+    add("decimal0", mode="decimal", auto_reduce=False, trees=n, depth=3)
+    for i in range(2):
         add(f"ndarray{i}", mode="ndarray", auto_reduce=i == 1, trees=n, depth=3)
     return out
 
@@ -193,7 +193,7 @@ class Leaf:
 
 
 class Node:
-    __slots__ = ("id", "kind", "op", "form", "kids", "leaf", "num", "zn", "shape")
+    __slots__ = ("id", "kind", "op", "form", "kids", "leaf", "num", "zn", "shape", "isarray")
 
     def __init__(self, kind, op=None, kids=(), leaf=None, num=None, form="plain"):
         self.kind = kind          # 'leaf' | 'num' | 'un' | 'bin'
@@ -205,6 +205,7 @@ class Node:
         self.zn = None
         self.id = -1
         self.shape = None
+        self.isarray = False
 
 
 def number_nodes(root):
@@ -237,7 +238,7 @@ class Cx:
         self.mode = mode
         self.exact = mode == "fraction"
         self.trunc = mode == "decimal"          # Decimal // and % truncate towards zero
-        self.u = 0.0 if self.exact else (1e-27 if mode == "decimal" else 2.0 ** -53)
+        self.u = 0.0 if self.exact else (1e-26 if mode == "decimal" else 2.0 ** -53)
         self.cu = C_ULP * self.u
         self.array = mode == "ndarray"
         self.maxlog = 14          # decades allowed for the factor of a leaf unit in float runs
@@ -292,6 +293,8 @@ def model_node(node, kids, cx, idx):
         return ok(MV(v, a.dims, a.bare, a.err))
     a, b = kids[0][1], kids[1][1]
     op = node.op
+    if op == "**" and node.kids[1].isarray and a.dims and not b.dims:
+        return skip("array-exponent-on-dimensional-base-is-refused-by-design")
     r = _model_bin(op, a, b, cx)
     if r[0] == "ok" and not cx.exact and not cx.mode == "decimal":
         v = r[1].v
@@ -424,6 +427,8 @@ def _model_pow(a, b, cx):
     fa, fe = _af(a.v), float(ev)
     if fa > 0 and abs(fe) * (abs(math.log10(fa)) + cx.maxlog + 6) > 240:
         return skip("float-range")       # the magnitude in the operand's own units may overflow
+    if cx.mode == "decimal" and ev == 0 and (a.v == 0 or _af(a.v) <= 2 * K_TOL * a.err):
+        return skip("decimal-zero-to-the-zero-is-invalid-operation")
     if integral and b.err == 0:
         n = int(ev)
         if abs(n) > 64:
@@ -762,6 +767,12 @@ class TreeGen:
     def set_shapes(self, nodes):
         for n in nodes:
             n.shape = self.full if self.full is not None else None
+            if n.kind == "leaf":
+                n.isarray = bool(n.leaf.shape) and len(n.leaf.vals) > 1
+            elif n.kind == "num":
+                n.isarray = hasattr(n.num, "shape") and getattr(n.num, "size", 1) > 1
+            else:
+                n.isarray = any(k.isarray for k in n.kids)
 
     # ---- subtrees -------------------------------------------------------------------------
     def random_dims(self):
@@ -775,6 +786,8 @@ class TreeGen:
             # a bare ndarray on the left dispatches through numpy's ufunc protocol (C16)
             l.num = float(l.num.flat[0])
             l.zn = bool(is_nan(l.num) or l.num == 0)
+        if l.kind == "num" and r.kind == "num":
+            r = self.leaf({}, small_int=op == "**")       # number op number is Python's business
         n = Node("bin", op, [l, r])
         rng = self.rng
         x = rng.random()
@@ -857,6 +870,11 @@ class TreeGen:
             n.num = rng.choice((-2, -1, 0, 1, 2, 3, 0.5, 1.5, -0.5, 2.0, 0.25) +
                                (() if cx.array else (F(1, 2), F(3, 2))))
         n.zn = n.num == 0
+        if cx.array and not base_dimensional and r > 0.85:
+            import numpy as np
+            n.num = np.array([rng.choice((-1.0, 0.0, 1.0, 2.0, 3.0, 0.5)) for _ in range(self.nelem)]).reshape(self.full)
+            n.zn = bool((n.num == 0).all())
+            return n
         if not base_dimensional and r < 0.35 and cx.mode != "decimal":
             return self.leaf({}, small_int=rng.random() < 0.5, scalar=rng.random() < 0.6)
         return n
@@ -1101,6 +1119,11 @@ class Runner:
                         rec.count("inplace_not_broadcastable_used_plain")
             except ValueError:
                 pass
+        if not lq and rq and hasattr(l, "shape"):
+            # a bare ndarray / numpy scalar on the left is dispatched by numpy's ufunc protocol: C16
+            e = Err(TypeError("bare numpy left operand"))
+            e.cls = "__skip__"
+            return e, "reflected"
         fl, fr = self.fp(l), self.fp(r)
         rec.count("operand_snapshots", 2)
         tgt = None
@@ -1200,7 +1223,7 @@ def value_matches(real, mv, cx, float_leak, fracunits=False):
     if is_nan(mv.v):
         return "eq" if is_nan(real) else None
     if is_nan(real):
-        return None
+        return None if cx.exact or cx.mode == "decimal" else "underflow"     # inf * 0 inside a factor
     if cx.exact:
         if isinstance(real, float) or type(real).__name__.startswith("float"):
             if not float_leak:
@@ -1279,6 +1302,10 @@ class Decider:
                 continue
             if nm[0] == "normskip":
                 rec.count("undecided:overflow-or-underflow-in-floats")
+                status[n.id] = "skip"
+                continue
+            if nm[0] == "err" and nm[1] == "__skip__":
+                rec.count("undecided:bare-numpy-left-operand-is-C16")
                 status[n.id] = "skip"
                 continue
             if len(kinds) != 1:
@@ -1402,10 +1429,10 @@ class Decider:
                 leak_seen = True
             elif how == "underflow":
                 return ("skip", "float-underflow-to-zero")
-            if cx.exact is False and mv.v != 0 and not is_nan(mv.v):
+            if how == "tol" and mv.err > 0:
                 try:
-                    rec.maximum("max_rel_error_seen_" + cx.mode,
-                                abs(float(_as_fraction(real) - mv.v)) / abs(float(mv.v)))
+                    rec.maximum("max_error_over_propagated_bound_" + cx.mode,
+                                abs(float(_as_fraction(real) - mv.v)) / mv.err)
                 except Exception:  # noqa: BLE001
                     pass
         if leak_seen:
@@ -1432,8 +1459,8 @@ class Decider:
             if status_base[n.id] == "bad" or status_other[n.id] == "bad":
                 agree[n.id] = False          # already reported against the model
                 continue
-            if cx.exact and "skip" in (status_base[n.id], status_other[n.id]):
-                rec.count(what + "_nodes_undecided")     # inexact arithmetic leaked into an exact run
+            if "skip" in (status_base[n.id], status_other[n.id]):
+                rec.count(what + "_nodes_undecided")     # undecidable for one of the runs (see undecided:*)
                 agree[n.id] = False
                 continue
             a, b = base[1][n.id], other[1][n.id]
@@ -1794,7 +1821,7 @@ def matrix_trees(g, rng, reps, all_forms=True):
                         r = operand(rk, dims, l)
                     except LookupError:
                         continue
-                    if op == "**" and g.cx.exact:
+                    if op == "**" and (g.cx.exact or (r.kind == "leaf" and not r.leaf.dims)):
                         # integer valued exponent
                         if r.kind == "leaf":
                             r.leaf.vals = [F(rng.choice((-2, -1, 0, 1, 2, 3))) for _ in r.leaf.vals]
@@ -1827,6 +1854,31 @@ def matrix_trees(g, rng, reps, all_forms=True):
                         yield n
 
 
+def edge_trees(g, rng):
+    """Deterministic delicate spots of the ndarray in-place paths: array base, scalar Quantity
+    exponent with an exactly representable integer value (0, 1, 2, -1), every form."""
+    pool = g.pool
+    pct = [s2 for s2 in ("percent",) if s2 in pool.names]
+    for dims in ({}, g.random_dims(), g.random_dims()):
+        for ev in (0, 1, 2, -1):
+            for eu in [{}] + [{s2: F(1)} for s2 in pct]:
+                for form in ("plain", "inplace"):
+                    try:
+                        base = g.leaf(dims)
+                    except LookupError:
+                        continue
+                    lf = base.leaf
+                    if not lf.shape or len(lf.vals) != g.nelem:
+                        lf.shape = g.full
+                        lf.vals = [g.value() or F(1, 3) for _ in range(g.nelem)]
+                    e = g.leaf({}, small_int=True, scalar=True)
+                    e.leaf.vals = [F(ev)]
+                    e.leaf.intkind = False
+                    e.leaf.assigns = [dict(eu) for _ in e.leaf.assigns]
+                    e.leaf.factors = [pool.m.expand(eu)[0] for _ in e.leaf.assigns]
+                    yield Node("bin", "**", [base, e], form=form)
+
+
 def run_shard(spec, rec):
     from harness import pintload, refmodel as R, gen, monitors
     import pint
@@ -1842,7 +1894,7 @@ def run_shard(spec, rec):
     if spec.get("auto_reduce"):
         kw["auto_reduce_dimensions"] = True
 
-    def one_registry(ureg, m, names, ntrees, label, prefixes=True):
+    def one_registry(ureg, m, names, ntrees, label, prefixes=True, spec=spec):
         pool = Pool(m, ureg, names, rec, prefixes)
         if not pool.base or len(pool.names) < 3:
             rec.count("registry_skipped_too_small")
@@ -1851,12 +1903,15 @@ def run_shard(spec, rec):
             pool.maxlog = cx.maxlog
         runner = Runner(ureg, pint, pool, cx, rec, spec)
         if spec.get("matrix"):
-            g = TreeGen(rng, pool, cx, 1, full_shape=None)
+            g = TreeGen(rng, pool, cx, 1, full_shape=(3,) if cx.array else None)
             decider = Decider(runner, g, rec, cx)
             for ti, root in enumerate(matrix_trees(g, rng, spec["matrix"], spec["tier"] == "thorough")):
                 evaluate_tree(root, g, runner, decider, rec, cx, ti, label)
                 if ti % 500 == 0:
                     monitors.drain(rec, label)
+            if cx.array:
+                for ti, root in enumerate(edge_trees(g, rng)):
+                    evaluate_tree(root, g, runner, decider, rec, cx, ti, label + "-edge")
         for ti in range(ntrees):
             full = None
             if cx.array:
@@ -1878,14 +1933,17 @@ def run_shard(spec, rec):
         for i in range(spec["registries"]):
             gdef = Gen(rng, offsets=0)
             txt = gdef.text(rng, shuffle=True, layout=rng.randrange(4))
+            kw2 = dict(kw)
+            if i % 2:
+                kw2["auto_reduce_dimensions"] = True
             try:
-                ureg = pint.UnitRegistry(txt.splitlines(), cache_folder=None, **kw)
+                ureg = pint.UnitRegistry(txt.splitlines(), cache_folder=None, **kw2)
             except Exception as e:  # noqa: BLE001
                 rec.count("generated_registry_refused")
                 continue
             m = R.read_text(txt)
             names = [c for c in gdef.mult_units() if gdef.units[c]["factor"] > 0]
-            one_registry(ureg, m, names, spec["trees"], f"generated{i}")
+            one_registry(ureg, m, names, spec["trees"], f"generated{i}", spec=dict(spec, auto_reduce=bool(i % 2)))
             rec.count("generated_registries")
             if i == 0:
                 rec.sample({"generated_file": txt[:400]})
